@@ -200,17 +200,21 @@ func appendEvents(path string, events []Event) error {
 		return err
 	}
 	defer file.Close()
+	// All events of one command go out in a single write, so that a process
+	// killed between system calls cannot leave a command half recorded.
+	var lines []byte
 	for _, event := range events {
 		data, err := json.Marshal(event)
 		if err != nil {
 			return err
 		}
-		line := append(data, '\n')
-		if err := writeAll(file, line); err != nil {
-			return err
-		}
+		lines = append(lines, data...)
+		lines = append(lines, '\n')
 	}
-	return nil
+	if len(lines) == 0 {
+		return nil
+	}
+	return writeAll(file, lines)
 }
 
 func writeEventsFile(path string, events []Event) error {
